@@ -21,7 +21,7 @@ RULE = (
     "'footnote-reference-1', 'system-message-1') and case variants; (tables) GFM tables with ragged rows, escaped "
     "pipes and inline markup, list-table / csv-table directives; (hostile) the cross-reference / footnote / attribute "
     "vocabulary of the totality check. Every case is checked twice - directly after parsing and after the full "
-    "transform pipeline - through docutils, and after read + post-transforms through the in-process Sphinx reader. "
+    "transform pipeline - through docutils, and - as read, and again after the post-transforms - through the in-process Sphinx reader. "
     "Oracle: a validity predicate over the output tree (vlib/wellformed.py): every child's parent is its container and "
     "no node is reached twice; sections only under document / section and starting with a title; transitions only "
     "under document / section; ids pairwise distinct and registered to their node; every refid of reference / "
@@ -71,8 +71,16 @@ def check_case(acc, case, frontend) -> list[dict]:
                 d1, w1 = front.docutils_publish(text, source_path=src, settings=settings)
                 phases.append(("transformed", d1, w1, True))
             else:
-                d2, w2 = c01.run_sphinx(case)
-                phases.append(("sphinx", d2, w2, True))
+                from myst_parser.config.main import MdParserConfig
+
+                proj = c01.sphinx_app()
+                cfg = {k: v for k, v in (case.get("cfg") or {}).items() if k not in ("suppress_warnings", "highlight_code_blocks", "inventories")}
+                proj.app.env.myst_config = MdParserConfig(**cfg)
+                # the tree as read (what Sphinx pickles), and the same tree after the post-transforms (what builders see)
+                d2, w2 = proj.read_doc("doc", text, post_transforms=False)
+                phases.append(("sphinx-read", d2.deepcopy(), w2, False))
+                proj.app.env.apply_post_transforms(d2, "doc")
+                phases.append(("sphinx", d2, w2 + proj.take_warnings(), True))
         except Exception as exc:  # noqa: BLE001
             if acc is not None:
                 acc.excluded[f"render-raises:{type(exc).__name__}"] += 1
@@ -83,7 +91,7 @@ def check_case(acc, case, frontend) -> list[dict]:
     for name, doc, warn, transformed in phases:
         # Sphinx lifts a field list at the very start of a document into the metadata and removes it from the tree,
         # together with any footnote reference written inside it
-        docinfo_removed = name == "sphinx" and text.lstrip().startswith(":")
+        docinfo_removed = name.startswith("sphinx") and text.lstrip().startswith(":")
         for code, detail in wellformed.problems(doc, transformed=transformed, warnings_text=warn, sphinx=(name == "sphinx"),
                                                 docinfo_removed=docinfo_removed):
             if code.startswith("section-inside-"):
@@ -92,7 +100,7 @@ def check_case(acc, case, frontend) -> list[dict]:
             if code.startswith("dangling-refid") and DISCARDED.search(text):
                 # recorded finding: a directive parsed its body (registering ids / slugs) and then discarded the nodes
                 code = "dangling-refid:discarded-directive-content"
-            if code in ("duplicate-id", "id-registry-points-elsewhere") and detail.startswith("'equation-") and name == "sphinx":
+            if code in ("duplicate-id", "id-registry-points-elsewhere") and detail.startswith("'equation-") and name.startswith("sphinx"):
                 code = "duplicate-id:sphinx-equation-label"  # recorded finding: duplicate '$$ .. $$ (label)' in Sphinx
             vs.append(mk(f"C03:{code}", {**case, "frontend": frontend}, "well-formed tree", {"phase": name, "detail": detail},
                          detail=doc.pformat()[:1500]))
@@ -120,7 +128,7 @@ TITLES = ["a", "A", "b", "a 1", "id1", "b c", "Title *em*", "2024", "1"]
 def ids_case(draw):
     blocks = []
     for _ in range(draw(st.integers(2, 9))):
-        k = draw(st.integers(0, 14))
+        k = draw(st.integers(0, 15))
         nm = draw(st.sampled_from(NAMES))
         lab = nm.replace(" ", "-")
         if k == 0:
@@ -157,8 +165,14 @@ def ids_case(draw):
             t = draw(st.sampled_from(TITLES))
             wrapper = draw(st.sampled_from(["figure} img.png", "note}", "image} img.png", "code-block} python", "table} Cap", "epigraph}"]))
             blocks.append("```{" + wrapper + "\n## " + t + "\n```\n\n[](#" + t.lower().replace(" ", "-").replace("*", "") + ")")
-        else:
+        elif k == 14:
             blocks.append(f"[^{lab}]: def in quote\n\n> [^{lab}]: second def [^{lab}]\n\n{lab} [^{lab}]")
+        else:
+            # directives that ask for section parsing of their body (Sphinx: only / ifconfig), at several heading levels
+            t = draw(st.sampled_from(TITLES))
+            d = draw(st.sampled_from(["only} html", "only} latex or html", "ifconfig} True", "only} html"]))
+            blocks.append("````{" + d + "\n" + "#" * draw(st.integers(1, 3)) + " " + t + "\n\ninner text\n\n" + "#" * draw(st.integers(2, 4))
+                          + " " + draw(st.sampled_from(TITLES)) + "\n````")
     cfg = {"enable_extensions": ["attrs_block", "attrs_inline", "dollarmath", "colon_fence"],
            "heading_anchors": draw(st.sampled_from([0, 2, 3])), "footnote_sort": draw(st.booleans())}
     return {"gen": "ids", "text": "\n\n".join(blocks) + "\n", "cfg": cfg}
